@@ -558,6 +558,47 @@ package generator
 //@   setup map_put(g.output.declsBySchema, t, new_decl("TChild"))
 //@   ensures [C10,C18] a-type-or-an-error: (result1 == nil) != (result0 == nil)
 
+// ---- following a reference inside the same document (generateReferencedType) -----
+// Scenario: the generator's own document has a typed definition X and an untyped
+// one U; t refers to one of them (either spelling of the prefix), to a missing one,
+// or is malformed. generateDeclaredType is used through its assumed call-site
+// contract; its ARGUMENTS are checked here. Loading other files (loader, addFile)
+// is not in this scenario.
+//@ func (*schemaGenerator).generateReferencedType@same-file
+//@   props C10 C18 C13 C14
+//@   option verify-only
+//@   option inline (*schemaGenerator).extractRefNames (*schemaGenerator).detectCycle
+//@   option shape-zero t.
+//@   option noframe
+//@   shape g = sgen(@registered)
+//@   shape t = new
+//@   shape t.Ref = "#/$defs/X" | "#/definitions/X" | "#/$DEFS/X" | "#/$defs/U" | "#/$defs/Missing" | "#/properties/X"
+//@   setup map_put(g.schema.Definitions, "X", new_schema_type("object"))
+//@   setup map_put(g.schema.Definitions, "U", new_schema_type(""))
+//@   ensures [C10,C18] unknown-definition-fails: (t.Ref == "#/$defs/Missing" || t.Ref == "#/properties/X") ==> result1 != nil
+//@   ensures [C10] untyped-definition-is-any: t.Ref == "#/$defs/U" ==> result1 == nil && dyn(result0) == "*codegen.EmptyInterfaceType"
+//@   ensures [C10,C13] the-definition-is-what-gets-declared: has_suffix(t.Ref, "/X") && t.Ref != "#/properties/X" ==> call_arg("(*schemaGenerator).generateDeclaredType", 1) == g.schema.Definitions["X"]
+//@   ensures [C10,C14] under-its-identifier: has_suffix(t.Ref, "/X") && t.Ref != "#/properties/X" ==> len(call_arg("(*schemaGenerator).generateDeclaredType", 2).stack) == 1 && call_arg("(*schemaGenerator).generateDeclaredType", 2).stack[0] == identifierize_of("X")
+//@   ensures [C10] same-package-reference-is-the-declared-type: has_suffix(t.Ref, "/X") && t.Ref != "#/properties/X" && result1 == nil ==> result0 == call_result("(*schemaGenerator).generateDeclaredType", 0)
+//@   ensures [C10,C18] declaration-errors-propagate: call_failed("(*schemaGenerator).generateDeclaredType") ==> result1 != nil
+//@   ensures [C10] scope-restored: len(g.inScope) == 0
+
+// A reference node that is met again while it is being followed is a cycle: the
+// result is a pointer to the declared type (a struct cannot contain itself), and
+// the node stays marked for the outer visit.
+//@ func (*schemaGenerator).generateReferencedType@cycle
+//@   props C10 C01
+//@   option verify-only
+//@   option inline (*schemaGenerator).extractRefNames (*schemaGenerator).detectCycle
+//@   option shape-zero t.
+//@   option noframe
+//@   shape g = sgen(@registered)
+//@   shape t = new
+//@   shape t.Ref = "#/$defs/X"
+//@   setup map_put(g.schema.Definitions, "X", new_schema_type("object"))
+//@   setup scope_put(g, t, "", "X")
+//@   ensures [C10,C01] cycles-go-through-a-pointer: result1 == nil ==> dyn(result0) == "*codegen.PointerType" && result0.Type == call_result("(*schemaGenerator).generateDeclaredType", 0)
+
 // ---- the four bound keywords reach type selection in their own positions --------
 // PrimitiveTypeFromJSONSchemaType(jsType, format, pointer, minIntSize, &Minimum,
 // &Maximum, &ExclusiveMinimum, &ExclusiveMaximum): all four are pointers of
